@@ -6,7 +6,6 @@ import (
 	"errors"
 	"fmt"
 	"net"
-	"strings"
 	"time"
 
 	"gosrc.io/xmpp/stanza"
@@ -133,19 +132,17 @@ func checkExpiration(tlsConn *tls.Conn) error {
 	return nil
 }
 
+// extractParams normalises a server address the way the transports do (ensurePort:
+// host name, IPv4, bare or bracketed IPv6, with or without port) and returns the
+// host:port to dial and the host on its own. An empty port ("host:") is no port.
 func extractParams(addr string) (string, string, error) {
-	var err error
-	hostport := strings.Split(addr, ":")
-	if len(hostport) > 2 {
-		err = errors.New("too many colons in xmpp server address")
-		return addr, hostport[0], err
+	full := ensurePort(addr, 5222)
+	host, port, err := net.SplitHostPort(full)
+	if err != nil {
+		return addr, addr, err
 	}
-
-	// Address is composed of two parts, we are good
-	if len(hostport) == 2 && hostport[1] != "" {
-		return addr, hostport[0], err
+	if port == "" {
+		full = net.JoinHostPort(host, "5222")
 	}
-
-	// Port was not passed, we append XMPP default port:
-	return strings.Join([]string{hostport[0], "5222"}, ":"), hostport[0], err
+	return full, host, nil
 }
